@@ -99,14 +99,14 @@ def run(ctx):
     ]
     ctx.lean(props=["Props.C19"], drivers=["drv_c19"])
     ctx.harness("./cmd/c19")
-    ctx.diff(area="extract", driver="drv_c19", n={"quick": 10000, "thorough": 150000},
+    ctx.diff(area="extract", driver="drv_c19", n={"quick": 8000, "thorough": 150000},
              trivial=lambda l, o: " e:" not in l, tagger=_tag, timeout=(240 if ctx.tier == "quick" else 900),
              theorem="C19.extract_contained / extract_wf / ensureNoSymlinks_spec / payload_error_propagates / "
                      "extract_reproduces / extract_reproduces_zip / extract_error_iff are about the model; "
                      "impl != model on this archive")
-    ctx.diff(area="dstlinkm", driver="drv_c19", n={"quick": 800, "thorough": 15000},
+    ctx.diff(area="dstlinkm", driver="drv_c19", n={"quick": 600, "thorough": 15000},
              trivial=lambda l, o: " e:" not in l, tagger=lambda l, o: "dstlink:" + o.split(" ", 1)[0],
              timeout=(240 if ctx.tier == "quick" else 900),
              theorem="the resolving model (Ex.walk) follows the destination link; impl != model on this archive")
-    ctx.impl_oracle("dstlink", {"quick": 300, "thorough": 4000}, label="destination is a symbolic link to a directory",
+    ctx.impl_oracle("dstlink", {"quick": 200, "thorough": 4000}, label="destination is a symbolic link to a directory",
                     timeout=(240 if ctx.tier == "quick" else 900))
